@@ -44,7 +44,8 @@ Values ==
     THEN { U("u8", << 7 >>), U("u16", << 1, 2 >>), S("i32", << 2 >>),
            [ty |-> "slice", v |-> Run(9, 3)], [ty |-> "slice", v |-> Run(170, 65535)], [ty |-> "slice", v |-> Run(170, 65536)],
            [ty |-> "tlv", t |-> Named("NoOp"), v |-> Run(42, 1)], [ty |-> "tlv", t |-> Raw(238), v |-> Run(1, 65535)],
-           [ty |-> "pair", t |-> Named("ALPN"), v |-> Run(1, 65536)], [ty |-> "addr", a |-> Ip4], [ty |-> "type", name |-> "SSL"] }
+           [ty |-> "pair", t |-> Named("ALPN"), v |-> Run(1, 65536)], [ty |-> "addr", a |-> Ip4], [ty |-> "type", name |-> "SSL"],
+           [ty |-> "tlvs", v |-> Run(7, 65538)] }
     ELSE { U("u8", << 7 >>), U("u16", << 1, 2 >>), U("u32", << 1, 2, 3, 4 >>), U("u64", << 255 >>), U("u128", << 1, 0 >>), U("usize", << 2 >>),
            S("i8", << 2 >>), S("i16", << 1, 0 >>), S("i32", << 2 >>), S("i64", << 128, 0, 0, 0, 0, 0, 0, 0 >>), S("i128", << 1 >>), S("isize", << 3 >>),
            [ty |-> "slice", v |-> << >>], [ty |-> "slice", v |-> Run(9, 3)], [ty |-> "slice", v |-> Run(170, 65535)],
@@ -54,7 +55,8 @@ Values ==
            [ty |-> "tlv", t |-> Raw(0), v |-> Run(1, 65536)],
            [ty |-> "pair", t |-> Named("ALPN"), v |-> Run(1, 2)], [ty |-> "pair", t |-> Raw(5), v |-> Run(1, 65536)],
            [ty |-> "addr", a |-> Ip4], [ty |-> "addr", a |-> Ip6], [ty |-> "addr", a |-> Unx], [ty |-> "addr", a |-> Unspecified],
-           [ty |-> "type", name |-> "SSL"], [ty |-> "tlvs", v |-> << << 4, 1 >>, << 0, 1 >>, << 1, 1 >>, << 42, 1 >> >>] }
+           [ty |-> "type", name |-> "SSL"], [ty |-> "tlvs", v |-> << << 4, 1 >>, << 0, 1 >>, << 1, 1 >>, << 42, 1 >> >>],
+           [ty |-> "tlvs", v |-> Run(7, 65536)], [ty |-> "tlvs", v |-> Run(7, 65538)] }
 
 Calls ==
     { [op |-> "BReserve", n |-> 7] }
